@@ -19,7 +19,12 @@ struct ConcWorld {
     Str run_body(int body, int slot) {
         (void)slot; UriUriA u, d; const char *ep = 0; Str r; int rc;
         switch (body) {
-        case 0: { const char *t = "s://u:p@[A:b::1.2.3.4]:80/a/./b/../c?q=1#f"; rc = mm ? uriParseSingleUriExMmA(&u, t, t + strlen(t), &ep, mm) : uriParseSingleUriA(&u, t, &ep); r = fmt("rc=%d ", rc); if (!rc) r += observe<char>(u, t, t + strlen(t)).key(); if (mm) uriFreeUriMembersMmA(&u, mm); else uriFreeUriMembersA(&u); return r; }
+        case 0: {   // every host kind x user info x port combination, with texts that differ per thread
+            char S = (char)('1' + slot % 8); const char *pat[] = { "//1.2.3.S:8S", "//1.2.3.S", "//u@9.8.7.S:1", "//u@9.8.7.S", "//[::S]:80", "//[vS.x]", "s://h.x:8S/a?q#f", "a/b/S", "s://u:p@[A:b::1.2.3.S]:80/a/./b/../c?q=1#f", "//h%4S@[::S", "1.2.3.S" };
+            for (auto p0 : pat) { Str t = p0; for (auto &c : t) if (c == 'S') c = S;
+                rc = mm ? uriParseSingleUriExMmA(&u, t.c_str(), t.c_str() + t.size(), &ep, mm) : uriParseSingleUriA(&u, t.c_str(), &ep); r += fmt("rc=%d ", rc); if (!rc) r += observe<char>(u, t.c_str(), t.c_str() + t.size()).key() + "; "; else r += fmt("err@%ld; ", (long)(ep - t.c_str()));
+                if (mm) uriFreeUriMembersMmA(&u, mm); else uriFreeUriMembersA(&u); }
+            return r; }
         case 1: rc = mm ? uriAddBaseUriExMmA(&d, ref.u, base.u, URI_RESOLVE_STRICTLY, mm) : uriAddBaseUriA(&d, ref.u, base.u); r = fmt("rc=%d ", rc); if (!rc) { int t; r += observe<char>(d).key() + " " + to_text<char>(d, &t); } if (mm) uriFreeUriMembersMmA(&d, mm); else uriFreeUriMembersA(&d); return r;
         case 2: rc = mm ? uriRemoveBaseUriMmA(&d, src.u, base.u, URI_FALSE, mm) : uriRemoveBaseUriA(&d, src.u, base.u, URI_FALSE); r = fmt("rc=%d ", rc); if (!rc) { int t; r += observe<char>(d).key() + " " + to_text<char>(d, &t); } if (mm) uriFreeUriMembersMmA(&d, mm); else uriFreeUriMembersA(&d); return r;
         case 3: { unsigned m = uriNormalizeSyntaxMaskRequiredA(messy.u), m2 = 0; rc = uriNormalizeSyntaxMaskRequiredExA(messy.u, &m2); return fmt("mask=%u/%u rc=%d", m, m2, rc); }
